@@ -73,7 +73,7 @@ Reader ==
                /\ nclone' = nclone + 1
                /\ chan' = Append(chan, Msg(m.id, None, "newsession", s, {"done"}))
             /\ UNCHANGED <<queue, flag, wk, buf, flusher, printed, intrSeen>>
-       [] m.op = "eval" ->
+       [] m.op \in {"eval", "load-file"} ->   \* load-file goes through the same queue and worker
             IF m.session \in live
             THEN /\ queue' = [queue EXCEPT ![m.session] = Append(@, [id |-> m.id, script |-> m.script])]
                  /\ UNCHANGED <<live, nclone, flag, wk, buf, flusher, chan, printed, intrSeen>>
